@@ -298,23 +298,23 @@ var keyOpts = []keyOpt{
 }
 
 type hsReq struct {
-	Path       string     `json:"path"`
-	Method     string     `json:"method"`
-	Proto      string     `json:"proto"`
-	Host       string     `json:"host"`
+	Path       string      `json:"path"`
+	Method     string      `json:"method"`
+	Proto      string      `json:"proto"`
+	Host       string      `json:"host"`
 	Headers    [][2]string `json:"headers"`
-	Labels     []string   `json:"labels"` // non-baseline options chosen
-	Bad        []string   `json:"bad"`    // labels that make the request invalid
-	Either     []string   `json:"either"` // labels with unspecified outcome
-	Key        string     `json:"key"`
-	Offered    []string   `json:"offered_subprotocols"`
-	OfferLines int        `json:"subprotocol_header_lines"`
-	OfferedExt []string   `json:"offered_extensions"`
-	ExtOffer   string     `json:"extension_offer"`
-	Supported  []string   `json:"supported_subprotocols"`
-	Compress   bool       `json:"server_compression"`
-	PreData    bool       `json:"data_before_handshake_end"`
-	LowerNames bool       `json:"lowercase_header_names"`
+	Labels     []string    `json:"labels"` // non-baseline options chosen
+	Bad        []string    `json:"bad"`    // labels that make the request invalid
+	Either     []string    `json:"either"` // labels with unspecified outcome
+	Key        string      `json:"key"`
+	Offered    []string    `json:"offered_subprotocols"`
+	OfferLines int         `json:"subprotocol_header_lines"`
+	OfferedExt []string    `json:"offered_extensions"`
+	ExtOffer   string      `json:"extension_offer"`
+	Supported  []string    `json:"supported_subprotocols"`
+	Compress   bool        `json:"server_compression"`
+	PreData    bool        `json:"data_before_handshake_end"`
+	LowerNames bool        `json:"lowercase_header_names"`
 }
 
 func (q *hsReq) add(name string, lines []string) {
@@ -834,8 +834,7 @@ func connectCentrifuge(c *kit.Case, e *env, compress bool) (*rawClient, *centrif
 
 var trialSeq atomic.Int64
 
-func disconnectTrial(c *kit.Case, e *env) (*verdict, string, map[string]any) {
-	r := c.R
+func disconnectTrial(c *kit.Case, e *env, r *kit.Rand) (*verdict, string, map[string]any) {
 	compress := r.Chance(1, 3)
 	rc, cl, _, inc := connectCentrifuge(c, e, compress)
 	if inc != "" {
@@ -980,8 +979,7 @@ func codeOf(f wsmodel.Frame) int {
 	return 1005
 }
 
-func receivedCloseTrial(c *kit.Case, e *env) (*verdict, string, map[string]any) {
-	r := c.R
+func receivedCloseTrial(c *kit.Case, e *env, r *kit.Rand) (*verdict, string, map[string]any) {
 	rc, conn, inc := upgradedPair(c, e)
 	if inc != "" {
 		return nil, inc, nil
@@ -1274,9 +1272,24 @@ func TestC31(t *testing.T) {
 				}
 				c.Nontrivial("hs|" + q.Path + "|" + strings.Join(q.Labels, ","))
 			}
+			// The library stamps the control frames it sends itself (close frames, pongs)
+			// with a 1 s wall-clock write deadline; on an overloaded machine such a write
+			// can time out. A trial whose only symptom is a missing server control frame is
+			// therefore repeated once with identical parameters; a real defect reproduces.
+			retryable := func(v *verdict) bool {
+				return v != nil && (strings.HasPrefix(v.class, "received-close-rejection-code:") || v.class == "received-close-not-answered" ||
+					v.class == "disconnect-close-frame-missing" || v.class == "server-close-frame-differs")
+			}
+			tseed := c.Seed ^ uint64(c.Index+1)<<24
 			for i := 0; i < nDisconnect; i++ {
 				c.Eval(1)
-				v, inc, det := disconnectTrial(c, e)
+				v, inc, det := disconnectTrial(c, e, kit.NewRand(tseed, uint64(1000+i)))
+				if inc == "" && retryable(v) {
+					if v2, inc2, _ := disconnectTrial(c, e, kit.NewRand(tseed, uint64(1000+i))); v2 == nil && inc2 == "" {
+						c.Count("first_run_not_reproduced", 1)
+						v = nil
+					}
+				}
 				if inc != "" {
 					c.Inconclusive("disconnect trial: " + inc)
 					return
@@ -1292,7 +1305,13 @@ func TestC31(t *testing.T) {
 			}
 			for i := 0; i < nReceived; i++ {
 				c.Eval(1)
-				v, inc, det := receivedCloseTrial(c, e)
+				v, inc, det := receivedCloseTrial(c, e, kit.NewRand(tseed, uint64(2000+i)))
+				if inc == "" && retryable(v) {
+					if v2, inc2, _ := receivedCloseTrial(c, e, kit.NewRand(tseed, uint64(2000+i))); v2 == nil && inc2 == "" {
+						c.Count("first_run_not_reproduced", 1)
+						v = nil
+					}
+				}
 				if inc != "" {
 					c.Inconclusive("received-close trial: " + inc)
 					return
